@@ -134,7 +134,7 @@ class FaultyGFile:
       i.die()
     self._f = _REAL['GFile'](path, mode)
     if 'w' in mode:
-      i.open_write_path = path
+      i.open_write_path = _local(path)
 
   def write(self, data):
     i = inj()
@@ -162,7 +162,7 @@ class FaultyGFile:
 
   def close(self):
     i = inj()
-    if 'w' in self._mode and i.open_write_path == self._path:
+    if 'w' in self._mode and i.open_write_path == _local(self._path):
       crashed = i.effect('close_w:' + _classify(self._path))
       if crashed and i.hard:
         # real process death at the close: nothing is flushed, whatever still
@@ -188,6 +188,10 @@ class FaultyGFile:
 
   def __getattr__(self, name):
     return getattr(self._f, name)
+
+
+def _local(path):
+  return path[len('file://'):] if path.startswith('file://') else path
 
 
 def _classify(path):
@@ -273,9 +277,13 @@ def toy_algorithm():
     # 'lr' is a weakly typed device scalar (born from a Python float, like a
     # learning rate or a decay) and 'half' a float16 device array: their product
     # stays float16 only as long as 'lr' is still weakly typed after a restore
+    # 'mom' is None until the first round and 'seen' gains a key per client: the
+    # pytree STRUCTURE of the state changes over the rounds (a lazily created
+    # momentum, a per-client table)
     return {'acc': np.array([seed % M, 7], dtype=np.int64),
             'hist': np.zeros([3], dtype=np.int64), 'rounds': 0,
-            'lr': jnp.asarray(0.5), 'half': jnp.full((2,), 1.0, jnp.float16)}
+            'lr': jnp.asarray(0.5), 'half': jnp.full((2,), 1.0, jnp.float16),
+            'mom': None, 'seen': {}}
 
   def apply(state, clients):
     i = inj()
@@ -292,7 +300,10 @@ def toy_algorithm():
     hist[0] = acc
     new = {'acc': np.array([acc, int(state['acc'][1]) + len(clients)], dtype=np.int64),
            'hist': hist, 'rounds': state['rounds'] + 1,
-           'lr': state['lr'], 'half': state['half'] * state['lr'] + 1}
+           'lr': state['lr'], 'half': state['half'] * state['lr'] + 1,
+           'mom': np.array([acc % 97], np.int64) if state['mom'] is None
+                  else state['mom'] * 3 % 101,
+           'seen': {**state['seen'], **{cid: state['rounds'] for cid, _, _ in clients}}}
     return new, {cid: None for cid, _, _ in clients}
 
   return fedjax.FederatedAlgorithm(init, apply)
@@ -351,7 +362,10 @@ def state_equal(a, b):
           np.array_equal(a['hist'], b['hist']) and a['rounds'] == b['rounds'] and
           np.asarray(a['half']).dtype == np.asarray(b['half']).dtype and
           np.array_equal(np.asarray(a['half']), np.asarray(b['half'])) and
-          np.array_equal(np.asarray(a['lr']), np.asarray(b['lr'])))
+          np.array_equal(np.asarray(a['lr']), np.asarray(b['lr'])) and
+          (a['mom'] is None) == (b['mom'] is None) and
+          (a['mom'] is None or np.array_equal(a['mom'], b['mom'])) and
+          a['seen'] == b['seen'])
 
 
 def one_run(case, root, injector):
@@ -361,8 +375,11 @@ def one_run(case, root, injector):
   fd = make_fd(case['n_clients'])
   sampler = CountingSampler(fd, case['cohort'], case['seed'])
   alg = toy_algorithm()
+  # the experiment may be given its directory as a URI (file:///...), as remote
+  # file systems are; the harness keeps looking at the plain local path
+  root_arg = 'file://' + root if case.get('root_as_uri') else root
   config = fe.FederatedExperimentConfig(
-      root_dir=root, num_rounds=cfg['num_rounds'],
+      root_dir=root_arg, num_rounds=cfg['num_rounds'],
       checkpoint_frequency=cfg['checkpoint_frequency'],
       num_checkpoints_to_keep=cfg['keep'], eval_frequency=cfg['eval_frequency'])
   periodic = {}
@@ -525,6 +542,7 @@ def single_crash_cases(tier):
           for final in (0, 1) if tier == 'quick' else (0, 1, 2):
             case = base_case(nr, cf, keep, ef, final, train=(nr + cf) % 2 == 0)
             case['dirname'] = DIRNAMES[(nr * 7 + cf * 3 + keep + ef + final) % len(DIRNAMES)]
+            case['root_as_uri'] = (nr + cf + keep + final) % 3 == 0
             log = count_effects(case)
             for i, kind in enumerate(log):
               if kind.startswith('write:') or kind.startswith('close_w:'):
@@ -572,6 +590,7 @@ def schedule_strategy(draw, tier):
                    n_clients=n_clients, cohort=draw(st.integers(1, n_clients)),
                    seed=draw(st.integers(0, 50)))
   case['dirname'] = draw(st.sampled_from(DIRNAMES))
+  case['root_as_uri'] = draw(st.integers(0, 3)) == 0
   # crash indices are drawn inside the effect stream of an uninterrupted run of
   # this configuration (a resumed run has fewer effects: later crashes of the
   # schedule are biased toward small indices)
